@@ -47,12 +47,18 @@ Starts(from) ==      \* admissible positions at which #include_next in `from` ma
   IF from \in DOMAIN entered THEN {IF k < 0 THEN 0 ELSE k + 1 : k \in entered[from]} ELSE {0}
 
 ResolvedOK(e) ==
+  IF e.idx = -2
+  THEN \* found nowhere: chibicc then opens the name as written (relative to the cwd).  Level A has no such step;
+       \* it is tolerated only when really no candidate exists, so the fallback can never shadow a file.
+       /\ e.resolved = e.name
+       /\ IF e.form = "next" THEN \E s \in Starts(e.from) : FirstFrom(e.ex, s) = -2
+                              ELSE FirstFrom(e.ex, 0) = -2 /\ (e.form = "quote" => e.exl = 0)
+  ELSE
   /\ IF e.idx = -1 THEN e.resolved = e.ldir \o "/" \o e.name
                    ELSE e.idx >= 0 /\ e.idx < Len(e.dirs) /\ e.resolved = e.dirs[e.idx + 1] \o "/" \o e.name
   /\ CASE e.form = "quote" -> IF e.exl = 1 THEN e.idx = -1 ELSE e.idx = FirstFrom(e.ex, 0)
        [] e.form = "angle" -> e.idx = FirstFrom(e.ex, 0)
        [] e.form = "next"  -> \E s \in Starts(e.from) : e.idx = FirstFrom(e.ex, s)
-  /\ e.idx # -2
 
 Inc == /\ Ev("inc")
        /\ LET e == Tr[l] IN
